@@ -259,8 +259,11 @@ type RouterInfo struct {
 	Published uint64          `json:"published"`
 	Addrs     []RouterAddress `json:"addrs"`
 	PeerSize  byte            `json:"peer_size"`
-	Options   Mapping         `json:"options"`
-	Sig       []byte          `json:"sig"`
+	// PeerHashes is emitted verbatim after peer_size. The specification calls the field "unused,
+	// always zero", so generated well-formed values leave this empty; hostile inputs set it.
+	PeerHashes []byte  `json:"peer_hashes,omitempty"`
+	Options    Mapping `json:"options"`
+	Sig        []byte  `json:"sig"`
 }
 
 func (r RouterInfo) EncodeUnsigned() []byte {
@@ -271,7 +274,7 @@ func (r RouterInfo) EncodeUnsigned() []byte {
 		b = append(b, a.Encode()...)
 	}
 	b = append(b, r.PeerSize)
-	// peer hashes are never generated (peer_size is always zero in the model)
+	b = append(b, r.PeerHashes...)
 	return append(b, r.Options.Encode()...)
 }
 
